@@ -577,6 +577,165 @@ Proof.
   - split; [discriminate|]. intros [H _]. discriminate.
 Qed.
 
+
+(* ------------------------------------------------------------------------------------------ *)
+(* replacer: Replace's scanning loops and getSubstitution's indexing are total                 *)
+(* ------------------------------------------------------------------------------------------ *)
+Lemma nth_error_skipn {A} (l : list A) (n i : nat) : nth_error (skipn n l) i = nth_error l (n + i).
+Proof.
+  revert l. induction n as [|n IH]; intros l; simpl; [reflexivity|].
+  destruct l; [now destruct i|]. apply IH.
+Qed.
+
+Lemma idx_Ok_nth {A} (l : list A) i v : idx l i = Ok v -> nth_error l i = Some v.
+Proof. unfold idx. destruct (nth_error l i); [congruence|discriminate]. Qed.
+
+Lemma find_unescaped_ok fuel : forall c s off,
+  c <> BSL -> (off <= length s)%nat -> (length s - off < fuel)%nat ->
+  exists r, find_unescaped fuel c s off = Ok r /\
+    forall k, r = Some k ->
+      (off <= k < length s)%nat /\ nth_error s k = Some c /\
+      (k = off \/ exists y, nth_error s (k - 1) = Some y /\ y <> BSL).
+Proof.
+  induction fuel as [|fuel IH]; intros c s off Hc Hoff Hf; [lia|]. simpl.
+  ok_from s off.
+  destruct (index_of [c] (skipn off s)) as [i|] eqn:Ei.
+  2:{ eexists; split; [reflexivity|]. discriminate. }
+  pose proof (index_of_hit _ _ _ Ei) as Hhit. rewrite nth_error_skipn in Hhit.
+  apply index_of_bound in Ei. rewrite skipn_length in Ei. simpl in Ei.
+  destruct i as [|i'].
+  - eexists; split; [reflexivity|]. intros k Hk. injection Hk as <-.
+    rewrite Nat.add_0_r in Hhit. repeat split; auto; lia.
+  - ok_idx (skipn off s) i'; [rewrite skipn_length; lia|].
+    apply idx_Ok_nth in E. rewrite nth_error_skipn in E.
+    destruct (negb (v =? BSL)) eqn:Eb.
+    + eexists; split; [reflexivity|]. intros k Hk. injection Hk as <-.
+      repeat split; auto; try lia. right. exists v. split.
+      * replace (off + S i' - 1)%nat with (off + i')%nat by lia. exact E.
+      * apply negb_true_iff, N.eqb_neq in Eb. exact Eb.
+    + destruct (IH c s (off + S i' + 1)%nat) as [r [Hr Hpost]]; auto; try lia.
+      exists r. split; [exact Hr|]. intros k Hk. destruct (Hpost k Hk) as [H1 [H2 H3]].
+      repeat split; auto; try lia.
+      destruct H3 as [H3|H3]; [|now right]. right. exists c. split; [|exact Hc].
+      subst k. replace (off + S i' + 1 - 1)%nat with (off + S i')%nat by lia. exact Hhit.
+Qed.
+
+(* unescaping keeps a final "x}" with x not a backslash *)
+Lemma unesc1_single c a : unesc1 c [a] = [a].
+Proof. reflexivity. Qed.
+
+Lemma unesc1_cons2 c a b r :
+  unesc1 c (a :: b :: r) = if (a =? BSL) && (b =? c) then c :: unesc1 c r else a :: unesc1 c (b :: r).
+Proof. reflexivity. Qed.
+
+Lemma unesc1_end c : c <> BSL -> forall n t x, (length t <= n)%nat -> x <> BSL ->
+  exists t' x', unesc1 c (t ++ [x; RB]) = t' ++ [x'; RB] /\ x' <> BSL.
+Proof.
+  intros Hc. induction n as [|n IH]; intros t x Hn Hx.
+  - destruct t; [|simpl in Hn; lia]. exists [], x. split; [|exact Hx].
+    simpl. apply N.eqb_neq in Hx. rewrite Hx. reflexivity.
+  - destruct t as [|a t1].
+    + exists [], x. split; [|exact Hx]. simpl. apply N.eqb_neq in Hx. rewrite Hx. reflexivity.
+    + simpl in Hn. destruct t1 as [|b t2].
+      * (* a :: [x; RB] *)
+        simpl. destruct ((a =? BSL) && (x =? c)) eqn:E.
+        -- apply andb_true_iff in E as [_ E]. apply N.eqb_eq in E. subst x.
+           exists [], c. split; [reflexivity|exact Hc].
+        -- exists [a], x. split; [|exact Hx]. apply N.eqb_neq in Hx. rewrite Hx. reflexivity.
+      * change ((a :: b :: t2) ++ [x; RB]) with (a :: b :: (t2 ++ [x; RB])).
+        rewrite unesc1_cons2. destruct ((a =? BSL) && (b =? c)).
+        -- destruct (IH t2 x) as [t' [x' [H1 H2]]]; [simpl in Hn; lia|exact Hx|].
+           exists (c :: t'), x'. rewrite H1. split; [reflexivity|exact H2].
+        -- destruct (IH (b :: t2) x) as [t' [x' [H1 H2]]]; [simpl in *; lia|exact Hx|].
+           exists (a :: t'), x'. change (b :: t2 ++ [x; RB]) with ((b :: t2) ++ [x; RB]).
+           rewrite H1. split; [reflexivity|exact H2].
+Qed.
+
+Lemma unescape_braces_end t x : x <> BSL ->
+  exists t' x', unescape_braces (t ++ [x; RB]) = t' ++ [x'; RB] /\ x' <> BSL.
+Proof.
+  intro Hx. unfold unescape_braces.
+  destruct (unesc1_end LB ltac:(discriminate) (length t) t x (le_n _) Hx) as [t1 [x1 [H1 Hx1]]].
+  rewrite H1.
+  apply (unesc1_end RB ltac:(discriminate) (length t1) t1 x1 (le_n _) Hx1).
+Qed.
+
+Lemma firstn_two_last {A} (l : list A) : forall m x y,
+  nth_error l m = Some x -> nth_error l (S m) = Some y -> firstn (S (S m)) l = firstn m l ++ [x; y].
+Proof.
+  induction l as [|a l IH]; intros m x y H1 H2; [destruct m; discriminate|].
+  destruct m as [|m].
+  - simpl in H1. injection H1 as ->. destruct l as [|b l]; [discriminate|].
+    simpl in H2. injection H2 as ->. reflexivity.
+  - simpl in H1, H2. change (firstn (S (S (S m))) (a :: l)) with (a :: firstn (S (S m)) l).
+    rewrite (IH m x y H1 H2). reflexivity.
+Qed.
+
+Lemma prefixb_same_length p : forall s, prefixb p s = true -> length p = length s -> s = p.
+Proof.
+  induction p as [|y p IH]; intros [|x s] H L; simpl in *; try discriminate; [reflexivity|].
+  apply andb_true_iff in H as [H1 H2]. apply N.eqb_eq in H1. subst. f_equal. apply IH; auto.
+Qed.
+
+Lemma subst_key_ok t x : x <> BSL -> exists r, subst_key (t ++ [x; RB]) = Ok r.
+Proof.
+  intro Hx. unfold subst_key. set (key := t ++ [x; RB]).
+  assert (Hlen : length key = (length t + 2)%nat) by (unfold key; rewrite app_length; simpl; lia).
+  ok_idx key 1%nat.
+  destruct ((v =? 62) || (v =? 126) || (v =? 63) || (v =? 36)) eqn:Ek.
+  - assert (Ht : t <> []).
+    { intros ->. unfold key in E. simpl in E. vm_compute in E. injection E as <-. discriminate. }
+    assert (length t >= 1)%nat by (destruct t; [congruence|simpl; lia]).
+    ok_slice key 2%nat (length key - 1)%nat. eauto.
+  - destruct (prefixb lit_label_13 key) eqn:Ep; [|eauto].
+    pose proof (prefixb_length _ _ Ep) as Hl. change (length lit_label_13) with 6%nat in Hl.
+    assert (length key <> 6)%nat.
+    { intro H6. apply prefixb_same_length in Ep; [|now rewrite H6].
+      unfold key in Ep. assert (Hlast : last (t ++ [x; RB]) 0 = RB).
+      { change [x; RB] with ([x] ++ [RB]). rewrite app_assoc. apply last_last. }
+      rewrite Ep in Hlast. vm_compute in Hlast. discriminate. }
+    ok_slice key 6%nat (length key - 1)%nat. eauto.
+Qed.
+
+Lemma replace_loop_ok fuel : forall subst s result, (length s < fuel)%nat ->
+  exists r, replace_loop fuel subst s result = Ok r.
+Proof.
+  induction fuel as [|fuel IH]; intros subst s result Hf; [lia|]. cbn [replace_loop].
+  destruct (find_unescaped_ok (S (length s)) LB s 0%nat) as [st [Est Hst]]; [discriminate|lia|lia|].
+  rewrite Est. cbn [rbind].
+  destruct st as [i0|]; [|eauto].
+  destruct (Hst i0 eq_refl) as [[_ Hi0] [Hn0 _]].
+  ok_from s i0. set (sp := skipn i0 s).
+  assert (Hsp : length sp = (length s - i0)%nat) by apply skipn_length.
+  destruct (find_unescaped_ok (S (length sp)) RB sp 0%nat) as [en [Een Hen]]; [discriminate|lia|lia|].
+  rewrite Een. cbn [rbind].
+  destruct en as [e|]; [|eauto].
+  destruct (Hen e eq_refl) as [[_ He] [Hne Hprev]].
+  assert (H0 : nth_error sp 0 = Some LB) by (unfold sp; rewrite nth_error_skipn, Nat.add_0_r; exact Hn0).
+  assert (He0 : e <> 0%nat) by (intros ->; rewrite H0 in Hne; discriminate).
+  destruct Hprev as [Hprev|[y [Hy Hyb]]]; [congruence|].
+  ok_slice s i0 (i0 + e + 1)%nat.
+  replace (i0 + e + 1 - i0)%nat with (S (S (e - 1))) by lia. fold sp.
+  rewrite (firstn_two_last sp (e - 1) y RB Hy); [|replace (S (e - 1)) with e by lia; exact Hne].
+  destruct (unescape_braces_end (firstn (e - 1) sp) y Hyb) as [t' [x' [Eu Hx']]].
+  rewrite Eu. destruct (subst_key_ok t' x' Hx') as [kn Ek]. rewrite Ek. cbn [rbind].
+  ok_slice s 0%nat i0. ok_from s (i0 + e + 1)%nat.
+  apply IH. rewrite skipn_length. lia.
+Qed.
+
+Lemma replace_ok subst s : exists r, replace subst s = Ok r.
+Proof.
+  unfold replace. destruct (negb (has_brace s)); [eauto|]. apply replace_loop_ok. lia.
+Qed.
+
+Lemma replace_no_panic subst s : replace subst s <> Panic.
+Proof. destruct (replace_ok subst s) as [r ->]. discriminate. Qed.
+
+(* getSubstitution's indexing is total on every key that Replace can hand to it, and in
+   general exactly on keys of at least 2 bytes that do not collapse *)
+Lemma subst_key_no_panic t x : x <> BSL -> subst_key (t ++ [x; RB]) <> Panic.
+Proof. intro H. destruct (subst_key_ok t x H) as [r ->]. discriminate. Qed.
+
 (* ------------------------------------------------------------------------------------------ *)
 (* statements in the form used by C19_Props.v                                                  *)
 (* ------------------------------------------------------------------------------------------ *)
